@@ -35,6 +35,8 @@ struct State {
     leaked_arc: i64,
     leaked_plain: i64,
     seed_ctr: u64,
+    plugin: Option<crate::plugin::Plugin>,
+    layout_disagreement: Option<String>,
 }
 
 const BORROWED_RETURNS: [&str; 4] = ["c_ref", "c_mut", "c_group_ref", "c_group_mut"];
@@ -63,6 +65,24 @@ fn create_pair(st: &mut State, family: usize, mask: u32, cont: usize, ctxsel: us
             create_group(family - factory::N_SINGLE, mask, cont, &cx)
         }
     };
+    if let Some(pl) = st.plugin.as_ref() {
+        // C05: every erased object is made by the separately compiled module, boxed, carrying the
+        // type-erased reference-counted context that keeps the module loaded
+        let ctx = st.ctx_handle.clone()?;
+        let hs = crate::plugin_gen::host_sizeof(family as u32);
+        let ps = unsafe { (pl.sizeof)(family as u32) };
+        if hs != ps {
+            st.layout_disagreement = Some(format!("object type of family {} is {} bytes in the host and {} bytes in the plugin", family_name(family), hs, ps));
+            return None;
+        }
+        let opaque: CArc<cglue::trait_group::c_void> = cglue::trait_group::Opaquable::into_opaque(ctx);
+        let a = unsafe { track(|| crate::plugin_gen::create_via_plugin(pl.create, family as u32, mask, seed, pl.api, opaque)) }?;
+        let b = {
+            let cx = Cx { world: &st.world, side: TWIN, seed, ctxsel: 3, arc_ctx: None, erased_arena: &st.erased_arena, twin_arena: &st.twin_arena };
+            if family < factory::N_SINGLE { factory::create_single(family, 0, &cx) } else { create_group(family - factory::N_SINGLE, mask, 0, &cx) }
+        }?;
+        return Some(Pair { a, b: b.obj, ctxsel: 3, family, mask, cont: 0, is_child: false });
+    }
     let a = mk(ERASED, st)?;
     let b = mk(TWIN, st)?;
     Some(Pair { a: a.obj, b: b.obj, ctxsel, family, mask, cont, is_child: false })
@@ -225,6 +245,9 @@ fn apply(st: &mut State, step: &Step, cell: &mut Option<u64>) -> Result<StepOut,
                 ctxsel = 0; // the library is gone: nothing can be created from it any more
             }
             let pair = create_pair(st, family, mask, cont, ctxsel);
+            if let Some(msg) = st.layout_disagreement.take() {
+                return Err(Violation::new("mod.layout_disagreement", family_name(family), msg));
+            }
             let Some(pair) = pair else { return Ok(StepOut { line: "Create noop(unsupported)".into(), effective: false, counts }) };
             // C04(b): layout facts of the fresh group object
             if let Some(f) = pair.a.layout() {
@@ -233,8 +256,11 @@ fn apply(st: &mut State, step: &Step, cell: &mut Option<u64>) -> Result<StepOut,
                 counts.push("probe.layout_checked".into());
             }
             counts.push(format!("create.{}", family_name(family)));
-            counts.push(format!("container.{}", ["box", "mut", "ref", "arcsome"][cont]));
-            counts.push(format!("context.{}", ["none", "arc", "plain", "arc_opaque"][ctxsel]));
+            counts.push(format!("container.{}", ["box", "mut", "ref", "arcsome"][pair.cont]));
+            counts.push(format!("context.{}", ["none", "arc", "plain", "arc_opaque"][pair.ctxsel]));
+            if st.plugin.is_some() {
+                counts.push("probe.object_created_by_plugin_module".into());
+            }
             st.slots[s] = Some(pair);
             Ok(StepOut { line: format!("Create slot={} {} mask={:#b} cont={} ctx={}", s, family_name(family), mask, cont, ctxsel), effective: true, counts })
         }
@@ -533,7 +559,18 @@ impl Engine for ObjEngine {
         let npool = plan.cfg("pool", 4).clamp(1, 8) as usize;
         let no_borrowed = plan.cfg("no_borrowed", 0) == 1;
         let world = World::new();
-        let arc = Arc::new(CtxPayload { world: world.clone() });
+        let mut plugin = None;
+        let mut lib = None;
+        if let Some(path) = crate::plugin::plugin_path() {
+            match crate::plugin::load(&path, &world) {
+                Ok((p, l)) => {
+                    plugin = Some(p);
+                    lib = Some(l);
+                }
+                Err(e) => return Err(Violation::new("harness.plugin_load", "dlopen", e)),
+            }
+        }
+        let arc = Arc::new(CtxPayload { world: world.clone(), lib });
         let ctx_weak = Arc::downgrade(&arc);
         let mut st = State {
             world,
@@ -545,6 +582,8 @@ impl Engine for ObjEngine {
             leaked_arc: 0,
             leaked_plain: 0,
             seed_ctr: 0,
+            plugin,
+            layout_disagreement: None,
         };
         let mut result: VResult = Ok(());
         for (i, step) in plan.steps.iter().enumerate() {
@@ -642,8 +681,27 @@ impl Engine for ObjEngine {
                     check_world(&mut st, "while releasing at quiescence", &[])?;
                 }
             }
+            if let (Some(pl), true) = (st.plugin.as_ref(), st.ctx_handle.is_some() && st.leaked_arc == 0) {
+                // memory owned by the module is released by the module: nothing of this run is left in
+                // its allocator once every object is gone (the module is still loaded here)
+                let now = unsafe { (pl.live_blocks)() };
+                vcheck!(now == pl.blocks_at_load, "mod.plugin_memory_left", "allocator", "all objects are gone but the plugin module's allocator has {} live block(s), {} when it was loaded", now, pl.blocks_at_load);
+            }
             st.ctx_handle.take();
             check_world(&mut st, "after the last holder was released", &[])?;
+            if st.plugin.is_some() && st.world.unloads.load(Ordering::SeqCst) == 1 {
+                // did the dynamic loader really unmap the module?
+                if let Some(path) = crate::plugin::plugin_path() {
+                    let still = unsafe { libloading::os::unix::Library::open(Some(&path), 0x4 | 0x1) }; // RTLD_NOLOAD | RTLD_LAZY
+                    match still {
+                        Ok(l) => {
+                            ctx.count("probe.module_still_mapped_after_last_release");
+                            drop(l);
+                        }
+                        Err(_) => ctx.count("probe.module_unmapped_by_dlclose"),
+                    }
+                }
+            }
             note_findings(&st, ctx);
             // by-reference objects never destroyed what they borrowed: the referents are all
             // still alive (live sets agree with the twin's arena) — reclaim both now
